@@ -661,6 +661,25 @@ func nativeRun(rc *runCtx, h *harness, ovPaths map[string]string, files []string
 	return results, out.String(), nil
 }
 
+// runGoTest runs `go test` in /repo with an overlay; returns combined output.
+func runGoTest(tmp string, repl map[string]string, args []string, env []string) (string, error) {
+	ovJSON, _ := json.Marshal(map[string]interface{}{"Replace": repl})
+	ovFile := filepath.Join(tmp, "overlay.json")
+	os.WriteFile(ovFile, ovJSON, 0o644)
+	full := append([]string{"test", "-overlay", ovFile}, args...)
+	cmd := exec.Command("go", full...)
+	cmd.Dir = repoDir
+	cmd.Env = append(append(os.Environ(), "GOFLAGS=-mod=mod", "GOPROXY=off", "GOSUMDB=off", "GOTOOLCHAIN=local"), env...)
+	var out bytes.Buffer
+	cmd.Stdout = &out
+	cmd.Stderr = &out
+	err := cmd.Run()
+	if err != nil && out.Len() == 0 {
+		return "", err
+	}
+	return out.String(), nil
+}
+
 func replayViolation(rc *runCtx, h *harness, ovPaths map[string]string, v *interp.Violation, file string) (bool, string) {
 	if h.ReplayFn != nil {
 		return h.ReplayFn(rc, h, v, file)
